@@ -24,7 +24,8 @@
      VIOL class=call-to-main-typing <name> core: <why>      the known fun2core call-to-main defect (C02): ONLY when
                                  [calls_main_prog] holds of the source AND the first ill-typed stage is core
                                  AND the failure is the arity of a call of main
-     VIOL class=main-non-integer-result <name> core: <why>  the known finding main-non-integer-result: ONLY when the
+     VIOL class=main-non-integer-result <name> core: <why>  the FORMER finding main-non-integer-result (fixed in /repo by
+                                 <commit12>: such a main is rejected, so this class is a plain violation now): ONLY when the
                                  declared return type of main is not i64 ([main_nonint]) AND the first ill-typed stage
                                  is core AND the failure is the type of the operand of main's final exit
      VIOL class=ill-typed-stage:core-inside-guard <name> ..  the source satisfies prog_tyguard (the hypothesis of theorem
@@ -130,7 +131,8 @@ Definition is_rebinding_message (why : string) : bool :=
      continuation (corpus/fun/c12_capture_share_dup.sc) *)
   || (prefix "def share_" why && contains ": duplicate parameter" why).
 
-(* finding main-non-integer-result: the declared return type of main is not i64 (Program::check does not
+(* former finding main-non-integer-result (fixed by <commit12>; a recurrence is reported under its own class):
+   the declared return type of main is not i64 (Program::check did not
    constrain it); compile_main then types the operand of the final `exit` with that type *)
 Definition main_nonint (p : fcprog) : bool :=
   existsb (fun d => String.eqb (fdname d) "main" && negb (fty_eqb (fdret d) FI64)) (fcpdefs p).
@@ -264,7 +266,7 @@ Definition wtstages_case (i r : sexp) : verdict :=
                  of main passes one - the FIRST ill-typed stage is core and the failure is that call's arity *)
               else if calls_main_prog fp && String.eqb st "core" && contains "call main: wrong number of arguments" why
               then VViol ("class=call-to-main-typing " ++ name ++ " core: " ++ trunc 300 why)
-              (* known finding main-non-integer-result: the FIRST ill-typed stage is core and the failure is the
+              (* former finding main-non-integer-result (fixed; no known_findings entry matches it any more): the FIRST ill-typed stage is core and the failure is the
                  type of the operand of main's final exit *)
               else if main_nonint fp && String.eqb st "core" && is_exit_operand_message why
               then VViol ("class=main-non-integer-result " ++ name ++ " core: " ++ trunc 300 why)
